@@ -62,7 +62,7 @@ theorem canon_sound (e : Entry) (h : canon e = true) (vl vr : Value F) (hl : vl.
     simp [canonR, binType, Value.ty] at hbt hc <;>
     (try obtain ⟨rfl, rfl⟩ := hc) <;>
     (try subst hbt) <;>
-    simp [Entry.compute, RExp.eval, goBin, goConv, goQuo, goRem, refBinop, refCmp, refDiv, refMod, Value.ty] <;>
+    simp [Entry.compute, isZeroV, RExp.eval, goBin, goConv, goQuo, goRem, refBinop, refCmp, refDiv, refMod, Value.ty] <;>
     (try (split <;> simp_all)) <;>
     (try (rename_i s p; cases hre : reMatch p s <;> simp [hre, Value.ty]))
 end
